@@ -177,6 +177,18 @@ def has_frac_power(g):
         g = g.wrapped_gate
     return False
 
+def has_neg_over_frac(g):
+    """F42 signature: a negative integer Power somewhere above a non-integer Power."""
+    neg = False
+    while type(g) is not MatrixFactoryGate:
+        if type(g) is Power:
+            if isinstance(g.exponent, int) and g.exponent < 0:
+                neg = True
+            elif not isinstance(g.exponent, int) and neg:
+                return True
+        g = g.wrapped_gate
+    return False
+
 def transcendental_nodes(g):
     """Number of Exponential and non-integer Power nodes."""
     n = 0
@@ -448,6 +460,10 @@ def run_chain(inp, g0, label):
             # F8: Power.dagger / anything that calls .dagger on a gate containing a non-integer power
             if not ok and st == "num" and has_frac_power(g) and (f8able or (chain[-1][0] == "c" and has_dagger_node(g))):
                 sig = "F8"
+            # F42: sympy's inv() on entries like 0.5*I**2.0 + 0.5 (an unrecognised zero left by an earlier fractional
+            # power) pivots on it and returns a 0/0 expression; only the matrix relation is excused
+            elif not ok and st == "num" and has_neg_over_frac(G):
+                sig = "F42"
     else:
         kind += "-valueerror"
         # independent restatement of when ValueError is due
@@ -594,4 +610,10 @@ def w_f8():
     b = npmat(g.matrix).conj().T
     return (not close(a, b)), f"Z.power(0.5).dagger.matrix = {a.tolist()}, adjoint of Z.power(0.5).matrix = {b.tolist()}"
 
-H.main(gen, run_case, {"F8": w_f8})
+def w_f42():
+    g = SX.power(0.5).power(4)          # the matrix of X, written with entries 0.5*I**2.0 + 0.5
+    a, b = npmat(g.matrix), npmat(g.power(-1).matrix)
+    return (not close(b @ a, np.eye(2))), (f"SX.power(0.5).power(4).matrix = {a.tolist()}, .power(-1).matrix = {b.tolist()} "
+                                           f"(sympy: {g.power(-1).matrix.tolist()})")
+
+H.main(gen, run_case, {"F8": w_f8, "F42": w_f42})
